@@ -78,7 +78,7 @@ main(int argc, char **argv) {
 	size_t n, c, L, lmax_all = 4 * 128 + 1;
 	uint8_t *S[2], *canon, *W, cbuf[HCANON_MAX], want[64], *dg;
 	size_t *clen;
-	char hex[2 * 64 + 1];
+	char hex[2 * 64 + 8];	/* vh_hex wants 3 spare bytes */
 
 	vh_init(argc, argv);
 	h_common_init();
@@ -241,7 +241,7 @@ main(int argc, char **argv) {
 					}
 					bad = 0;
 					if (vh_begin(t_gds)) {
-						char whex[2 * 64 + 1];
+						char whex[2 * 64 + 8];
 
 						vh_desc("pat=%d n=%zu", p, n);
 						expected(ai, p, n, want);
